@@ -332,7 +332,16 @@ fn exec_holder(scn: &HistHolderScn) -> RunReport {
                             viol = Some(("kth-result-equals-fresh-instance".into(), "c11:holder:different_presentation".into(), json!({"call_index": k, "reused": a, "fresh": b})));
                         }
                         if let Some(kb) = &ma.kb {
-                            if earlier_kb.contains(kb) {
+                            // With a frozen clock, equal arguments and a deterministic signature
+                            // (EdDSA) two calls legitimately produce the identical KB-JWT; it is a
+                            // leak only if a fresh instance would not have produced this string.
+                            // (The structural comparison with the fresh instance above already
+                            // proves header and claims are this call's; under EdDSA an identical
+                            // string then is what any instance would emit when the claim map
+                            // happens to serialise in the same order.) Under ES256 the signature is
+                            // randomised, so an identical string can only be a stale copy.
+                            let randomized = call.alg.as_deref().unwrap_or("ES256").starts_with("ES");
+                            if earlier_kb.contains(kb) && (randomized || !kb_same) {
                                 viol = Some(("no-earlier-state-in-later-result".into(), "c11:holder:kb_from_earlier_call".into(), json!({"call_index": k})));
                             }
                             earlier_kb.push(kb.clone());
